@@ -31,9 +31,19 @@ def special_traces(pos, graph):
     for a in range(n):
         for b in range(n):
             out.append([near[a], near[b]])
-    for a, b, c in itertools.product(range(n), repeat=3):
+    sel = list(range(n)) if n <= 5 else [0, 1, n // 2, n - 2, n - 1]      # larger graphs: both ends and the middle
+    for a, b, c in itertools.product(sel, repeat=3):
         if abs(a - b) >= 2 or abs(b - c) >= 2:
             out.append([near[a], near[b], near[c]])
+    return out
+
+
+def span_idx(n, four=False):
+    """Index tuples (into the node list of a named graph with last index n) for traces that span the graph."""
+    h = n // 2
+    out = [(0, h, n), (0, n, 1), (1, n - 1, 0), (n, h, 0), (0, n), (n, 0), (h, 0, n - 1)]
+    if four:
+        out += [(0, h, n - 1, n), (n, n - 1, 1, 0), (0, n, 0, n), (h, 0, n, h)]
     return out
 
 
@@ -75,7 +85,7 @@ def traces_of(case, graph):
         P = [v[0] for v in graph.values()]
         near = [(p[0] + 0.13, p[1] - 0.11) for p in P]
         n = len(P) - 1
-        idx = [(0, 2, 4), (0, 4, 1), (1, 3, 0), (0, 1, 4), (4, 2, 0), (2, 0, 3)]
+        idx = [(0, n // 2, n), (0, n, 1), (1, n - 1, 0), (0, 1, n), (n, n // 2, 0), (n // 2, 0, n - 1)]
         return [[near[min(i, n)] for i in t] for t in idx]
     if case["slice"] == "hist":
         return [t for t in trace_set(pos, case["T"], n_obs=3, with_far=(case.get("tier") == "thorough")) if len(t) == case["T"]]
